@@ -146,6 +146,9 @@ def is_numeric(expr):
         return False
 
 def DM2numpy(dm, expr_shape, tdim=None):
+    if hasattr(dm, "toarray"):
+        # Values with structural zeros arrive as a scipy sparse matrix
+        dm = dm.toarray()
     if tdim is None:
         return np.array(dm).squeeze()
     expr_prod = expr_shape[0]*expr_shape[1]
